@@ -196,6 +196,12 @@ def constant_metrics(d, seed=0, include_implicit=True):
         U = rect(d, 1, seed)
         out.append(("low_rank_update", lambda: M.PositiveDefiniteLowRankUpdateMatrix(
             U.copy(), M.PositiveDiagonalMatrix(diag.copy())), np.diag(diag) + U @ U.T))
+        K1 = np.array([[2.5]])
+        out.append(("derived_low_rank_update_inner",
+                    lambda: M.PositiveDefiniteLowRankUpdateMatrix(
+                        U.copy(), M.PositiveDiagonalMatrix(diag.copy()),
+                        M.DensePositiveDefiniteMatrix(K1.copy())),
+                    np.diag(diag) + 2.5 * U @ U.T))
         out.append(("low_rank_downdate", lambda: M.PositiveDefiniteLowRankUpdateMatrix(
             0.4 * U, M.PositiveDiagonalMatrix(diag.copy() + 1.0), sign=-1),
             np.diag(diag + 1.0) - 0.16 * U @ U.T))
@@ -220,6 +226,12 @@ def constant_metrics(d, seed=0, include_implicit=True):
     # was tried and dropped: the finite-difference and matrix-exponential oracles lose their
     # accuracy at frequencies of 1e3, which showed as alarms of the oracles, not of the code.)
     out += [("derived_heavy_identity", lambda: M.PositiveScaledIdentityMatrix(1e8, d), 1e8 * I)]
+    def _inv_after_eig():
+        m = M.DensePositiveDefiniteMatrix(Binv.copy())
+        m.eigval, m.eigvec  # noqa: B018  (e.g. a condition number was inspected first)
+        return m.inv
+
+    out += [("derived_inv_after_eig", _inv_after_eig, B)]
     out += [("derived_scaled_inv_dense", _scaled_inv, 0.25 * B),
             ("derived_used_then_divided", _used_then_divided, B / 0.4),
             ("derived_diag_used_then_scaled", _diag_used_then_scaled, 2.5 * np.diag(diag))]
